@@ -14,6 +14,7 @@ var ErrInjected = errors.New("faultio: injected I/O failure")
 type Writer struct {
 	Budget   int
 	Short    bool
+	Full     bool // the failing call takes over all of its data and reports (len(p), err): a deferred failure
 	Accepted []byte
 	Failed   bool
 }
@@ -28,6 +29,10 @@ func (w *Writer) Write(p []byte) (int, error) {
 		return len(p), nil
 	}
 	w.Failed = true
+	if w.Full {
+		w.Accepted = append(w.Accepted, p...)
+		return len(p), ErrInjected
+	}
 	if w.Short {
 		w.Accepted = append(w.Accepted, p[:room]...)
 		return room, ErrInjected
